@@ -19,7 +19,7 @@ Next ==
      ELSE IF e.skipped THEN UNCHANGED <<paired, who, want, val, done>>
      ELSE
        LET ok == e.res = "ok"
-           paired2 == IF e.a = "Pair" /\ ok THEN paired \cup {e.x} ELSE IF e.a = "Remove" /\ ok THEN paired \ {e.x} ELSE paired
+           paired2 == IF e.a \in {"Pair", "Add"} /\ ok THEN paired \cup {e.x} ELSE IF e.a = "Remove" /\ ok THEN paired \ {e.x} ELSE paired
            changed == e.a \in {"Write", "Local"} /\ e.running /\ e.val # val /\ (e.a = "Local" \/ ok)
            expected == IF changed THEN {k \in want : k # e.k /\ Ver(k)} ELSE {}
        IN
@@ -30,7 +30,9 @@ Next ==
        \* Accessory.tla and followed here through done, but no listed property demands it)
        /\ Report("E2E-Pair", (e.a = "Pair" /\ e.k \notin done) => ok)
        \* C01: gated operations are served exactly on verified connections
-       /\ Report("E2E-Gate", e.a \in {"Read", "Sub", "Unsub", "Write", "Remove"} => (ok <=> Ver(e.k)))
+       /\ Report("E2E-Gate", e.a \in {"Read", "Sub", "Unsub", "Write", "Remove", "Add"} => (ok <=> Ver(e.k)))
+       \* C01: nothing is disclosed to a connection that is not verified
+       /\ Report("E2E-Leak", e.running => \A k \in SetOf(e.got) : (Ver(k) \/ (e.a = "Verify" /\ ok /\ k = e.k)))
        \* C10: events go to exactly the verified, subscribed others
        /\ Report("E2E-Events", e.running => SetOf(e.got) = expected)
        \* C20: discoverable iff nothing is paired; pairings survive restarts; values do not leak into identity
